@@ -480,6 +480,26 @@ def run_core(scn, want=("c01", "c02", "c03", "c04", "c05", "c06")):
                 break
         else:
             quiet = None
+    if scn.get("limits", {}).get("drain_after"):
+        # bounded liveness "once the load stops": every master stops offering new commands; whatever was accepted must be answered
+        # within the wait bound.  (Per-command waits are measured in order, so a lost strobe only shifts a looping master's queue
+        # by one and never shows as a long wait while traffic continues.)
+        for m in masters:
+            m.loop = False
+            if m.cur is None:
+                m.done_issuing = True
+            else:
+                m.ops = m.ops[:m.k + 1]
+        dlen = int(scn["limits"]["drain_after"] * (Bauto if bound is None else max(bound, Bauto)))
+        dcap = cyc + dlen
+        while cyc < dcap and not all(m.idle() for m in masters):
+            sim.step()
+            cyc = sim.cycles["sys"]
+        if not all(m.idle() for m in masters):
+            det = ", ".join("port%d: offered %s, write data owed %d, reads owed %d" % (i, "yes" if m.cur is not None else "no", len(m.wq), m.reads_out)
+                            for i, m in enumerate(masters) if not m.idle())
+            viol.add("c05.lost_response", "traffic stopped, but after %d more cycles (%.1f x the wait bound) accepted commands are still unanswered: %s"
+                     % (dlen, scn["limits"]["drain_after"], det), kind="drain")
     idle = all(m.idle() for m in masters)
     if bound is not None and waits["resp"] > bound:
         viol.add("c05.wait_bound", "an accepted command waited %d cycles for its write-data strobe / read data (bound %d for this configuration)"
